@@ -312,6 +312,25 @@ def h_grown_usable(nc_sel: int, na_sel: int, how: int) -> bool:
     if len(e.dumps_mol2()) == 0 or len(e.dumps_xyz()) == 0:
         return False
     r = mio._deserialize_ens_v2(mio._serialize_ens_v2(e))
+    if not (rect(r, n1, na) and real_np.allclose(r.coords, e.coords) and real_np.allclose(r.atomic_charges, e.atomic_charges) and real_np.allclose(r.weights, e.weights)):
+        return False
+    # the grown ensemble and the objects it grew from are independent: writes on either side stay there
+    srcs = [x for x in (m, g) if how in (0, 1, 2, 4)] + ([o] if how in (3, 5) else [])
+    snap = [(x.coords.copy(), getattr(x, "atomic_charges", real_np.zeros(1)).copy()) for x in srcs]
+    e.scale(2.0)
+    for k in range(n1):
+        e[k].coords[0, 0] += 1.0
+        e[k].atomic_charges[0] += 1.0
+    e.translate([0.0, 1.0, 0.0])
+    for x, (c_, q_) in zip(srcs, snap):
+        if not (real_np.array_equal(x.coords, c_) and real_np.array_equal(getattr(x, "atomic_charges", real_np.zeros(1)), q_)):
+            return False
+    before = (e.coords.copy(), e.atomic_charges.copy())
+    for x in srcs:
+        x.coords[...] = -5.0
+        if hasattr(x, "atomic_charges"):
+            x.atomic_charges[...] = -5.0
+    return real_np.array_equal(e.coords, before[0]) and real_np.array_equal(e.atomic_charges, before[1])
     return rect(r, n1, na) and real_np.allclose(r.coords, e.coords) and real_np.allclose(r.atomic_charges, e.atomic_charges) and real_np.allclose(r.weights, e.weights)
 
 
